@@ -7,6 +7,7 @@ import (
 	"strings"
 	"sync"
 	"testing"
+	"time"
 
 	"github.com/blinklabs-io/gouroboros/cbor"
 	"github.com/blinklabs-io/gouroboros/protocol"
@@ -327,7 +328,9 @@ func TestC16(t *testing.T) {
 	vfail := func(key, what string, cs any) bool { return rec.Violation(key, what, cs) }
 	depth := rec.Pick(6, 8)
 	engineDepth := rec.Pick(3, 4)
+	realDepth := rec.Pick(2, 3)
 
+	t0 := time.Now()
 	// ---- build the implementation automata
 	var autos []*builtAuto
 	learnedProbes := 0
@@ -353,10 +356,11 @@ func TestC16(t *testing.T) {
 		autos = append(autos, ba)
 	}
 	rec.SetExtra("learned_probes", learnedProbes)
+	tLearn := time.Since(t0)
 
 	summary := map[string]any{}
 	codecPairs, totalEvaluated := 0, 0
-	ec := &engineCounters{}
+	ec, ecReal := &engineCounters{}, &engineCounters{}
 	for _, ba := range autos {
 		b, impl := ba.b, ba.impl
 		info := map[string]any{"states": impl.states(), "initial": impl.initial()}
@@ -394,9 +398,21 @@ func TestC16(t *testing.T) {
 			}
 		}
 		info["engine_sequences_per_role"] = len(seqs)
+		// the package's real Client / Server objects must run the same automaton from
+		// the same initial state (prediction = simulation of the exported map)
+		if !ba.real && b.real != nil {
+			rseqs := implSequences(b, impl, realDepth)
+			for _, role := range []protocol.ProtocolRole{protocol.ProtocolRoleClient, protocol.ProtocolRoleServer} {
+				for _, seq := range rseqs {
+					runEngineTrace(rec, b, impl, role, true, nil, seq, func(int) int { return 0 }, ecReal, vfail)
+				}
+			}
+			info["real_object_sequences_per_role"] = len(rseqs)
+		}
 		summary[b.id] = info
 	}
 	rec.SetExtra("automata", summary)
+	rec.SetExtra("phase_seconds", map[string]float64{"learn": tLearn.Seconds(), "static_and_enumerated_engine": (time.Since(t0) - tLearn).Seconds()})
 	rec.SetExtra("codec_state_msg_pairs", codecPairs)
 	rec.SetExtra("exhaustive_depth", depth)
 	rec.SetExtra("engine_exhaustive_depth", engineDepth)
@@ -408,6 +424,8 @@ func TestC16(t *testing.T) {
 		rec.SetExtra("traces_validated_against_impl", ec.validated)
 		rec.SetExtra("engine_traces_cut_by_handler", ec.cut)
 		rec.SetExtra("engine_traces_reaching_terminal", ec.terminal)
+		rec.SetExtra("real_object_traces_validated", ecReal.validated)
+		rec.SetExtra("real_object_traces_cut", ecReal.cut)
 	}()
 	rec.Check(func(rt *rapid.T) {
 		// near-uniform index from fair bits (rapid's integer draws favour small values)
@@ -519,6 +537,11 @@ func TestC16(t *testing.T) {
 		variant := rapid.IntRange(0, 7).Draw(rt, "variantSeed")
 		k := 0
 		pick := func(nv int) int { k++; return (variant + k) % nv }
-		runEngineTrace(rec, b, impl, role, ba.real, plan, seq, pick, ec, rfail)
+		if !ba.real && b.real != nil && rare("realObject", 2) {
+			rec.Class("walk_on_real_object")
+			runEngineTrace(rec, b, impl, role, true, plan, seq, pick, ecReal, rfail)
+		} else {
+			runEngineTrace(rec, b, impl, role, ba.real, plan, seq, pick, ec, rfail)
+		}
 	})
 }
